@@ -107,7 +107,23 @@ func (a result) diff(b result) string {
 		la, lb := strings.Split(a.dump, "\n"), strings.Split(b.dump, "\n")
 		for i := 0; i < len(la) && i < len(lb); i++ {
 			if la[i] != lb[i] {
-				return fmt.Sprintf("trees differ at dump line %d: %.300s vs %.300s", i, la[i], lb[i])
+				// show the surroundings of the first differing byte
+				k := 0
+				for k < len(la[i]) && k < len(lb[i]) && la[i][k] == lb[i][k] {
+					k++
+				}
+				from := k - 120
+				if from < 0 {
+					from = 0
+				}
+				cut := func(s string) string {
+					to := k + 160
+					if to > len(s) {
+						to = len(s)
+					}
+					return s[from:to]
+				}
+				return fmt.Sprintf("trees differ at dump line %d, byte %d: ...%s vs ...%s", i, k, cut(la[i]), cut(lb[i]))
 			}
 		}
 		return "trees differ in length"
